@@ -1254,6 +1254,30 @@ func (sab *storageAllocationBase) replaceBlobber(blobberID string, sc *StorageSm
 			}
 
 			if blobberIsKilled {
+				// the dead blobber no longer serves the allocation: release its offer, size and data
+				sp, err := sc.getStakePool(spenum.Blobber, d.BlobberID, balances)
+				if err != nil {
+					return common.NewError("remove_blobber_failed",
+						"can't get stake pool of "+d.BlobberID+": "+err.Error())
+				}
+				if err := sp.reduceOffer(d.Offer()); err != nil {
+					return common.NewError("remove_blobber_failed",
+						"error removing offer: "+err.Error())
+				}
+				if err := sp.Save(spenum.Blobber, d.BlobberID, balances); err != nil {
+					return err
+				}
+				//nolint:errcheck
+				blobber.mustUpdateBase(func(b *storageNodeBase) error {
+					b.SavedData += -d.Stats.UsedSize
+					b.Allocated += -d.Size
+					return nil
+				})
+				if _, err := balances.InsertTrieNode(blobber.GetKey(), blobber); err != nil {
+					return common.NewError("remove_blobber_failed",
+						"saving blobber "+d.BlobberID+": "+err.Error())
+				}
+				sab.Stats.UsedSize += -d.Stats.UsedSize
 				sab.BlobberAllocs[i] = addedBlobberAllocation
 				sab.BlobberAllocsMap[addedBlobberAllocation.BlobberID] = addedBlobberAllocation
 				break
